@@ -502,6 +502,13 @@ def _poison_decoded(kind: "Kind", raw: bytes, a):
 def op_check(a):
     kind = KINDS[a["kind"]]
     raw = unhx(a["raw"])
+    if a.get("remake"):
+        # (cold-start entry path "the ENCODER comes first") the packet is built and packed again from the generator seed and
+        # variant the case carries, before anything is decoded: the same parameters pack to the same octets
+        again, _ = kind.make(random.Random(a["remake"]["seed"]), a["remake"]["i"])
+        if bytes(again) != raw:
+            raise SelfCheckFailure(f"{kind.name}: the same parameters (generator seed {a['remake']['seed']}, variant {a['remake']['i']}) "
+                                   f"packed again give {bytes(again).hex()}, the first time they gave {raw.hex()}")
     if a.get("mut"):
         # decode, modify what was decoded, decode again: the packet itself and corrupted variants of it (last bit of the
         # trailer, a bit of the last data octet, the first bit behind the length-determining octets, one in the middle)
@@ -725,12 +732,23 @@ def _next_pack_clean(t, what: str):
                                f"not the CRC of the preceding octets ({c:#06x}): {raw.hex()}")
 
 
+def _entry_pack(t, entry: Optional[str]) -> bytes:
+    """the raw packet by one of the three documented ways (case key "entry"; Lean ignores it: all three give the octets of
+    pack()): pack() itself, calc_crc() followed by pack(recalc_crc=False) (no field changed in between), to_space_packet().pack()"""
+    if entry == "calc_crc":
+        t.calc_crc()
+        return bytes(t.pack(recalc_crc=False))
+    if entry == "to_space_packet":
+        return bytes(t.to_space_packet().pack())
+    return bytes(t.pack())
+
+
 def op_tc_mutated_pack(a):
     t = _tc(a)
     if a.get("poison") and a.get("poison_at", 0) == 0:
         _poison_tc(a, t, a["poison"])
         _next_pack_clean(t, "PusTc")
-    first = bytes(t.pack())
+    first = _entry_pack(t, a.get("entry"))
     if a.get("poison") and a.get("poison_at", 0) == 1:
         _poison_tc(a, t, a["poison"])
         _next_pack_clean(t, "PusTc")
@@ -755,7 +773,7 @@ def op_tm_mutated_pack(a):
     if a.get("poison") and a.get("poison_at", 0) == 0:
         _poison_tm(a, a["poison"])
         _next_pack_clean(t, "PusTm")
-    first = bytes(t.pack())
+    first = _entry_pack(t, a.get("entry"))
     if a.get("poison") and a.get("poison_at", 0) == 1:
         _poison_tm(a, a["poison"])
         _next_pack_clean(t, "PusTm")
@@ -977,6 +995,40 @@ class C04(Prop):
                 yield Case({"op": f"c04_{m}_sweep", **kind.extra(raw, ex), "raw": hx(raw), "patterns": pats,
                             "crc_every": 4 if thorough else 8}, "valid", tag=f"{kind.name}:solved-sweep", keys=SWEEP_KEYS)
                 yield from self._directed(kind, raw, ex, rng, None if thorough else 2, "solved-")
+        # ---- cold start (core.cold_start_sample runs the cases named by cold_start_cases() as the first and only operation
+        #      of a fresh interpreter): one case per ENTRY PATH of the checksum, so that each of them is, once, the first
+        #      thing a process does with the package. Encoders: pack(); calc_crc() + pack(recalc_crc=False);
+        #      to_space_packet().pack() (TC and TM; key "entry"); a CFDP PDU with CRC packed from its parameters (key
+        #      "remake"). Decoders / checks: unpack() of TC / TM, check_pus_crc(), the decoder front of a CFDP PDU with CRC,
+        #      the CRC function. Emitted last: the stream of the cases above is what it was. ----
+        none = {"set_apid": None, "set_count": None, "set_source_id": None, "set_data": None}
+        for entry in ("pack", "calc_crc", "to_space_packet"):
+            yield Case({"op": "c04_tc_mutated_pack", **tc_args(rng, 3), **none, "set_count": rng.randint(0, 16383), "entry": entry},
+                       "valid", tag=f"cold-start:tc-{entry}-first")
+            b = tm_args(rng, 7, 3)
+            yield Case({"op": "c04_tm_mutated_pack", **b, "set_apid": rng.randint(0, 2047), "set_seq_flags": None, "set_data": None,
+                        "entry": entry}, "valid", tag=f"cold-start:tm-{entry}-first")
+        for name in ("tc", "tm", "cfdp_eof", "cfdp_file_data"):
+            kind = KINDS[name]
+            sd, i = rng.getrandbits(32), rng.randint(0, 1000)
+            raw, ex = kind.make(random.Random(sd), i)
+            m = kind.model(raw)
+            yield Case({"op": f"c04_{m}_check", **kind.extra(raw, ex), "raw": hx(raw)}, "valid", tag=f"cold-start:{name}-unpack-first")
+            if not kind.pus:
+                yield Case({"op": f"c04_{m}_check", **kind.extra(raw, ex), "raw": hx(raw), "remake": {"seed": sd, "i": i}}, "valid",
+                           tag=f"cold-start:{name}-pack-first")
+            else:
+                # (op_corrupt asks the standalone check first)
+                yield self._single(kind, raw, ex, 8 * len(raw) - 1, "1", f"cold-start:{name}-check_pus_crc-first")
+        dta = rbytes(rng, 40)
+        yield Case({"op": "c04_crc", "data": hx(dta), "cut": 17}, "valid", tag="cold-start:crc-function-first")
+
+    def cold_start_cases(self):
+        """always in the cold-start sample: one case per entry path of the checksum (see the end of `cases`)"""
+        return ([f"cold-start:{k}-{e}-first" for e in ("calc_crc", "to_space_packet", "pack") for k in ("tc", "tm")]
+                + ["cold-start:tc-unpack-first", "cold-start:tm-unpack-first", "cold-start:tc-check_pus_crc-first",
+                   "cold-start:cfdp_eof-unpack-first", "cold-start:cfdp_eof-pack-first", "cold-start:cfdp_file_data-pack-first",
+                   "cold-start:crc-function-first"])
 
 
 PROP = C04()
